@@ -202,14 +202,14 @@ class CartesianSamplingOp(LinearOperator):
         broadcast_shape = torch.broadcast_shapes(scatter_index.shape[:-1], data_to_scatter.shape[:-1])
         idx_expanded = torch.broadcast_to(scatter_index, (*broadcast_shape, scatter_index.shape[-1]))
 
-        # although scatter_ is inplace, this will not cause issues with autograd, as self
+        # although scatter_add_ is inplace, this will not cause issues with autograd, as self
         # is always constant zero and gradients w.r.t. src work as expected.
         data_scattered = torch.zeros(
             *broadcast_shape,
             n_last_dim,
             dtype=data_to_scatter.dtype,
             device=data_to_scatter.device,
-        ).scatter_(dim=-1, index=idx_expanded, src=data_to_scatter)
+        ).scatter_add_(dim=-1, index=idx_expanded, src=data_to_scatter)
 
         return data_scattered
 
